@@ -22,7 +22,11 @@ def _forms(A):
     import scipy.sparse as sps
     A = np.asarray(A)
     tri = np.triu(A)
-    return {"dense-sym": A, "dense-triu": tri, "list-sym": A.tolist(), "list-triu": tri.tolist(), "csr-sym": sps.csr_matrix(A), "csr-triu": sps.csr_matrix(tri)}
+    return {"dense-sym": A, "dense-triu": tri, "list-sym": A.tolist(), "list-triu": tri.tolist(), "csr-sym": sps.csr_matrix(A), "csr-triu": sps.csr_matrix(tri),
+            # every sparse format and every memory layout of a dense array is "a sparse matrix" / "a dense array"
+            "coo-sym": sps.coo_matrix(A), "csc-triu": sps.csc_matrix(tri), "lil-sym": sps.lil_matrix(A), "dok-triu": sps.dok_matrix(tri),
+            "dense-fortran": np.asfortranarray(A), "dense-transposed-view": tri.T, "dense-float": A.astype(float), "dense-bool": A.astype(bool),
+            "dense-strided-view": np.repeat(np.repeat(A, 2, axis=0), 2, axis=1)[::2, ::2]}
 
 
 def _rand_graph(rng, n, p=0.5, connected=True):
@@ -161,6 +165,36 @@ def _standin(rep, tier, seed, only_search=False):
             if only_search:
                 return
             break
+    # the same array objects handed over again and again (collections of three or more, repeated calls): every call sees the graph
+    # the caller built, and the caller's arrays are left alone - for every element type and layout of a dense matrix
+    for _ in range(6 if tier == "quick" else 120):
+        gs = [_rand_graph(rng, rng.randint(4, 6), p=rng.choice([0.5, 0.7, 0.9])) for _i in range(3)]
+        for dt in (np.float64, np.int64, np.float32):
+            arrs = [np.ascontiguousarray(g.astype(dt)) for g in gs]
+            snaps = [a.copy() for a in arrs]
+            np.random.seed(5)
+            try:
+                with warnings.catch_warnings():
+                    warnings.simplefilter("ignore")
+                    from persim import gromov_hausdorff as _ghf
+                    L1, U1 = _ghf(list(arrs))
+                    np.random.seed(5)
+                    L2, U2 = _ghf(list(arrs))
+                    np.random.seed(5)
+                    l01, u01 = _ghf(arrs[0], arrs[1])
+            except Exception as ex:
+                rep.violation("gromov_hausdorff raised %r on a collection of three dense %s matrices handed over twice" % (ex, np.dtype(dt).name), "mgh:format:exception", {"input": {"graphs": [g.tolist() for g in gs], "dtype": np.dtype(dt).name}})
+                break
+            evals += 3
+            true01 = mgh(gs[0], gs[1])
+            if any(not np.array_equal(a, b) for a, b in zip(arrs, snaps)):
+                rep.violation("gromov_hausdorff wrote into the dense %s adjacency matrices it was given" % np.dtype(dt).name, "mgh:argument-modified", {"input": {"graphs": [g.tolist() for g in gs], "dtype": np.dtype(dt).name}})
+                break
+            if not (np.array_equal(L1, L2) and np.array_equal(U1, U2)) or not (L1[0, 1] <= true01 + 1e-12 <= U1[0, 1] + 2e-12) or not (l01 <= true01 + 1e-12 <= u01 + 2e-12):
+                rep.violation("the same three dense %s matrices give different / invalid estimates when handed over again: first %s / %s, then %s / %s, pair call (%r, %r); true distance of the first pair %r"
+                              % (np.dtype(dt).name, L1.tolist(), U1.tolist(), L2.tolist(), U2.tolist(), l01, u01, true01), "mgh:repeated-arrays",
+                              {"input": {"graphs": [g.tolist() for g in gs], "dtype": np.dtype(dt).name}, "expected_first_pair": true01})
+                break
     # "under any vertex relabelling ... valid brackets": structured shapes (spiders, cycles with leaves) where the curvature-based
     # tightening of the lower bound is reached, each against a relabelled sparse-matrix copy of the other, exact distance by branch and
     # bound; and graphs beyond 128 vertices (where narrow integer types wrap) against a relabelled copy of themselves (distance 0)
